@@ -98,6 +98,7 @@ sp_ztrsv(char *uplo, char *trans, char *diag, SuperMatrix *L,
     doublecomplex temp;
     doublecomplex alpha = {1.0, 0.0}, beta = {1.0, 0.0};
     doublecomplex comp_zero = {0.0, 0.0};
+    doublecomplex comp_temp;
     register int_t fsupc, luptr, istart, irow, k, iptr, jcol, nsuper;
     int          nsupr, nsupc, nrow, i;
     doublecomplex *work;
@@ -149,8 +150,8 @@ sp_ztrsv(char *uplo, char *trans, char *diag, SuperMatrix *L,
 		    for (iptr=istart+1; iptr < L_SUB_END(fsupc); ++iptr) {
 			irow = L_SUB(iptr);
 			++luptr;
-			zz_mult(&comp_zero, &x[fsupc], &Lval[luptr]);
-			z_sub(&x[irow], &x[irow], &comp_zero);
+			zz_mult(&comp_temp, &x[fsupc], &Lval[luptr]);
+			z_sub(&x[irow], &x[irow], &comp_temp);
 		    }
 		} else {
 #ifdef USE_VENDOR_BLAS
@@ -206,8 +207,8 @@ sp_ztrsv(char *uplo, char *trans, char *diag, SuperMatrix *L,
 		    z_div(&x[fsupc], &x[fsupc], &Lval[luptr]);
 		    for (i = U_NZ_START(fsupc); i < U_NZ_END(fsupc); ++i) {
 			irow = U_SUB(i);
-			zz_mult(&comp_zero, &x[fsupc], &Uval[i]);
-			z_sub(&x[irow], &x[irow], &comp_zero);
+			zz_mult(&comp_temp, &x[fsupc], &Uval[i]);
+			z_sub(&x[irow], &x[irow], &comp_temp);
 		    }
 		} else {
 #ifdef USE_VENDOR_BLAS
@@ -230,8 +231,8 @@ sp_ztrsv(char *uplo, char *trans, char *diag, SuperMatrix *L,
 		        solve_ops += 8*(U_NZ_END(jcol) - U_NZ_START(jcol));
 		    	for (i = U_NZ_START(jcol); i < U_NZ_END(jcol); i++) {
 			    irow = U_SUB(i);
-			zz_mult(&comp_zero, &x[jcol], &Uval[i]);
-			z_sub(&x[irow], &x[irow], &comp_zero);
+			zz_mult(&comp_temp, &x[jcol], &Uval[i]);
+			z_sub(&x[irow], &x[irow], &comp_temp);
 		    	}
                     }
 		}
@@ -258,8 +259,8 @@ sp_ztrsv(char *uplo, char *trans, char *diag, SuperMatrix *L,
 		    for (i = L_NZ_START(jcol) + nsupc; 
 				i < L_NZ_END(jcol); i++) {
 			irow = L_SUB(iptr);
-			zz_mult(&comp_zero, &x[irow], &Lval[i]);
-		    	z_sub(&x[jcol], &x[jcol], &comp_zero);
+			zz_mult(&comp_temp, &x[irow], &Lval[i]);
+		    	z_sub(&x[jcol], &x[jcol], &comp_temp);
 			iptr++;
 		    }
 		}
@@ -292,8 +293,8 @@ sp_ztrsv(char *uplo, char *trans, char *diag, SuperMatrix *L,
 		    solve_ops += 8*(U_NZ_START(jcol+1) - U_NZ_START(jcol));
                     for (i = U_NZ_START(jcol); i < U_NZ_END(jcol); i++) {
 			irow = U_SUB(i);
-			zz_mult(&comp_zero, &x[irow], &Uval[i]);
-		    	z_sub(&x[jcol], &x[jcol], &comp_zero);
+			zz_mult(&comp_temp, &x[irow], &Uval[i]);
+		    	z_sub(&x[jcol], &x[jcol], &comp_temp);
 		    }
 		}
 
@@ -337,8 +338,8 @@ sp_ztrsv(char *uplo, char *trans, char *diag, SuperMatrix *L,
 				i < L_NZ_END(jcol); i++) {
 			irow = L_SUB(iptr);
                         zz_conj(&temp, &Lval[i]);
-			zz_mult(&comp_zero, &x[irow], &temp);
-		    	z_sub(&x[jcol], &x[jcol], &comp_zero);
+			zz_mult(&comp_temp, &x[irow], &temp);
+		    	z_sub(&x[jcol], &x[jcol], &comp_temp);
 			iptr++;
 		    }
  		}
@@ -372,8 +373,8 @@ sp_ztrsv(char *uplo, char *trans, char *diag, SuperMatrix *L,
 		    for (i = U_NZ_START(jcol); i < U_NZ_END(jcol); i++) {
 			irow = U_SUB(i);
                         zz_conj(&temp, &Uval[i]);
-			zz_mult(&comp_zero, &x[irow], &temp);
-		    	z_sub(&x[jcol], &x[jcol], &comp_zero);
+			zz_mult(&comp_temp, &x[irow], &temp);
+		    	z_sub(&x[jcol], &x[jcol], &comp_temp);
 		    }
 		}
 
